@@ -28,7 +28,8 @@ RULE = ("real projects of 1-4 jobs drawn from 13 state point shapes (nested, flo
         "levels deep (RecursionError in json); with no / full / partial persistent cache "
         "(update_cache before the damage), optionally update_cache() by a fresh session AFTER the damage; jobs with a document and "
         "data files or BARE (nothing but the state point file).  Observed: check() ids, open_job(id=i).statepoint() in fresh sessions, "
-        "the state point asked for three times through one by-id handle, "
+        "the state point asked for three times through one by-id handle, repair() called without ids or with the listed ids "
+        "spelled as list / tuple / generator / iterator / map object / dict keys view / set, "
         "repair() outcome, byte snapshot of the whole workspace before/after, check() after, open by id through the "
         "repairing session.  non-trivial: at least one job is damaged (canonical hash of the decoded value differs "
         "from the directory name, or undecodable/missing); distinct by (jobs, cache mode, damage list)")
@@ -68,6 +69,29 @@ CLASSES = ["digit", "letter", "quote", "brace", "space", "nul", "hi"]
 REPLACEMENTS = ["other", "1", "[]", "{}", "null", "float", "reorder", "space", "[1, 2]", "5", "\"s\"", "true"]
 DEEP = {"deeplist": b"[" * 2000 + b"]" * 2000, "deepobj": b'{"a":' * 2000 + b"1" + b"}" * 2000}   # RecursionError in json
 RENAMES = ["rand", "shape", "null"]
+# how the ids are handed to repair(): not at all (job_ids=None) or as the listed ids in one of the spellings of an
+# iterable[str] - repair() must treat them alike (one-shot iterators included)
+SPELLINGS = ["list", "tuple", "gen", "iter", "map", "keys", "set"]
+
+
+def spell_ids(how, listing):
+    """(argument for repair(), the order in which it yields the ids)"""
+    if how == "list":
+        return list(listing), list(listing)
+    if how == "tuple":
+        return tuple(listing), list(listing)
+    if how == "gen":
+        return (i for i in listing), list(listing)
+    if how == "iter":
+        return iter(list(listing)), list(listing)
+    if how == "map":
+        return map(str, listing), list(listing)
+    if how == "keys":
+        return dict.fromkeys(listing).keys(), list(listing)
+    if how == "set":
+        x = set(listing)
+        return x, list(x)
+    raise ValueError(how)
 
 
 def text_of(shape):
@@ -98,6 +122,11 @@ def _single_sweep(stride_t, stride_s):
                     und += [x for x in dmg if x[0] in ("replace", "rename")]
                     for d in und:
                         out.append({"jobs": [s, other], "cache": ucache, "upd": True, "damage": [[0] + d]})
+            # the ids handed to repair() explicitly, in every spelling of an iterable (seeded C09-13: a one-shot iterator)
+            for k, how in enumerate(SPELLINGS):
+                ds = [["delete"], ["trunc", 1], ["replace", "other"], ["rename", "rand", s]]
+                for d in ([ds[0], ds[1 + (k + s) % 3]] if how in ("gen", "iter", "map") else [ds[(k + s) % 4]]):
+                    out.append({"jobs": [s, other], "cache": cache, "spell": how, "damage": [[k % 2] + d]})
             # BARE jobs: a job that owns nothing but its state point file (no document, no data file) is a job like any
             # other (seeded C09-12: after the deletion of the file its directory is empty)
             for d in (["delete"], ["trunc", 1], ["replace", "[]"], ["replace", "other"], ["rename", "rand", s], ["subst", 1, "letter", s]):
@@ -153,6 +182,8 @@ def _rand_multi(rng):
         desc["bare"] = bare
     if rng.random() < 0.3:
         desc["upd"] = True
+    if rng.random() < 0.4:
+        desc["spell"] = rng.choice(SPELLINGS)
     if cache == "full" and rng.random() < 0.15:
         rest = [x for x in range(len(SHAPES)) if x not in jobs]
         desc["ghost"] = rng.choice(rest)
@@ -196,6 +227,11 @@ DIRECTED = [
     {"jobs": [0, 1], "cache": "none", "upd": True, "damage": [[0, "replace", "other"]]},
     {"jobs": [0, 1], "cache": "none", "upd": True, "damage": [[0, "replace", "reorder"], [1, "replace", "space"]]},
     {"jobs": [4, 5, 6], "cache": "partial:1", "upd": True, "damage": [[1, "rename", "rand", 8], [0, "delete"]]},
+    # repair(job_ids=<one-shot iterator>) in a fresh session with a persistent cache: every id must be looked at
+    {"jobs": [0, 1, 2], "cache": "full", "spell": "gen", "damage": [[0, "delete"], [1, "trunc", 2], [2, "replace", "other"]]},
+    {"jobs": [0, 1, 2], "cache": "full", "spell": "iter", "damage": [[2, "delete"]]},
+    {"jobs": [3, 4], "cache": "partial:1", "spell": "map", "damage": [[0, "delete"], [1, "rename", "rand", 9]]},
+    {"jobs": [5, 6, 7], "cache": "none", "spell": "set", "damage": [[1, "rename", "rand", 10], [0, "trunc", 3]]},
     # a job without document and data files loses its state point file: empty directory, still a damaged job
     {"jobs": [0, 1, 2], "cache": "full", "bare": [1], "damage": [[1, "delete"]]},
     {"jobs": [0, 1, 2], "cache": "none", "bare": [0, 1, 2], "damage": [[0, "delete"], [2, "delete"]]},
@@ -420,7 +456,11 @@ def run_project(root, desc):
     # the directory order repair() will see
     listing = [d for d in os.listdir(ws) if _HEX.match(d)]
     q = signac.Project(root)
-    repair = _ck(lambda: q.repair())
+    if desc.get("spell"):
+        arg, listing = spell_ids(desc["spell"], listing)
+        repair = _ck(lambda: q.repair(arg))
+    else:
+        repair = _ck(lambda: q.repair())
     post, _ = snapshot(root)
     check_after = _ck(lambda: signac.Project(root).check())
     listing_after = sorted(d for d in os.listdir(ws) if _HEX.match(d))
@@ -557,6 +597,7 @@ def run_case(desc):
     damaged = o["check"][0] != "ok"
     kinds = ["cache:" + desc["cache"].split(":")[0], "jobs:%d" % len(desc["jobs"]), "damaged:%d" % len(desc["damage"])]
     kinds += sorted({"dmg:" + (x[1] if x[1] != "subst" else "subst-" + x[3]) for x in desc["damage"]})
+    kinds.append("repair-ids:" + desc.get("spell", "None"))
     if desc.get("bare"):
         kinds.append("bare-job")
     if o["upd"]:
@@ -574,7 +615,7 @@ def run_case(desc):
 def search(desc):
     """neighbours: each damage alone, and the same damage on a project without the other jobs' damage"""
     out = []
-    extra = {k: desc[k] for k in ("bare", "upd", "ghost") if k in desc}
+    extra = {k: desc[k] for k in ("bare", "upd", "ghost", "spell") if k in desc}
     for d in desc["damage"]:
         out.append(dict(extra, jobs=desc["jobs"], cache=desc["cache"], damage=[d]))
         out.append(dict({k: v for k, v in extra.items() if k != "ghost"}, jobs=desc["jobs"], cache="none", damage=[d]))
